@@ -9,19 +9,19 @@ type Stats struct {
 	TxsFailed  int64            `json:"txs_failed"`
 	SimSeconds int64            `json:"sim_seconds"`
 	Counters   map[string]int64 `json:"counters"`
-	Faults     map[string]int64 `json:"faults"`  // fault kind -> times it actually fired
-	Probes     map[string]int64 `json:"probes"`  // rare conditions reached
-	Checks     map[string]int64 `json:"checks"`  // oracle id -> evaluations
+	Faults     map[string]int64 `json:"faults"` // fault kind -> times it actually fired
+	Probes     map[string]int64 `json:"probes"` // rare conditions reached
+	Checks     map[string]int64 `json:"checks"` // oracle id -> evaluations
 }
 
 func NewStats() *Stats {
 	return &Stats{Counters: map[string]int64{}, Faults: map[string]int64{}, Probes: map[string]int64{}, Checks: map[string]int64{}}
 }
 
-func (s *Stats) Inc(k string)        { s.Counters[k]++ }
-func (s *Stats) Fault(k string)      { s.Faults[k]++ }
-func (s *Stats) Probe(k string)      { s.Probes[k]++ }
-func (s *Stats) Check(k string)      { s.Checks[k]++ }
+func (s *Stats) Inc(k string)           { s.Counters[k]++ }
+func (s *Stats) Fault(k string)         { s.Faults[k]++ }
+func (s *Stats) Probe(k string)         { s.Probes[k]++ }
+func (s *Stats) Check(k string)         { s.Checks[k]++ }
 func (s *Stats) CheckN(k string, n int) { s.Checks[k] += int64(n) }
 
 func (s *Stats) Merge(o *Stats) {
